@@ -13,12 +13,15 @@ import (
 	"bytes"
 	"errors"
 	"fmt"
+	"os"
 	"path/filepath"
 	"runtime"
 	"sort"
+	"strconv"
 	"strings"
 	"sync"
 	"testing"
+	"time"
 
 	"github.com/rhysd/actionlint/verifshim/vexec"
 	"github.com/rhysd/actionlint/verifshim/vsched"
@@ -449,8 +452,8 @@ func TestVerifC20(t *testing.T) {
 	r.Bounds["preemptions"] = maxPreempt
 	r.Bounds["non_default_tool_outcomes"] = maxFault
 	r.Bounds["sanitize_string_length"] = sanLen
-	r.Extra["rule"] = "per scenario (files<=2, jobs<=2, run steps<=3, every shell source, semaphore size 1|2): all interleavings of the real Linter/concurrentProcess/rule callbacks over scripted os/exec up to the preemption bound x all per-invocation tool outcomes (11 shellcheck, 9 pyflakes) with at most F non-default answers; plus sanitizeExpressionsInScript on all strings <= L over {$,{,},a,space,newline}. class = observation shape (fatal?, diagnostics, outcomes); non-trivial = a tool reported an issue or failed"
-	r.Extra["assumptions"] = []string{"tool processes are scripted (vexec); the real os/exec is not exercised", "RWMutex writer preference and semaphore FIFO order are not modelled (a superset of interleavings is explored)", "scheduling points are the sync operations; data-race freedom between them is supported by a separate -race run, not decided here"}
+	r.Extra["rule"] = "per scenario (files<=2, jobs<=2, run steps<=3, every shell source, semaphore size 1|2): all interleavings of the real Linter/concurrentProcess/rule callbacks over scripted os/exec up to the preemption bound x all per-invocation tool outcomes (11 shellcheck, 9 pyflakes) with at most F non-default answers; plus a stand-in tool run through the real os/exec with scripts of 9 sizes around the pipe capacity x {1, 3} steps; plus sanitizeExpressionsInScript on all strings <= L over {$,{,},a,space,newline}. class = observation shape (fatal?, diagnostics, outcomes); non-trivial = a tool reported an issue or failed"
+	r.Extra["assumptions"] = []string{"tool processes are scripted (vexec); the real os/exec is exercised only by the stand-in tool of the real-process slice (script sizes 0 .. 1 MiB)", "RWMutex writer preference and semaphore FIFO order are not modelled (a superset of interleavings is explored)", "scheduling points are the sync operations; data-race freedom between them is supported by a separate -race run, not decided here"}
 	scs := c20Scenarios()
 
 	if raw := vReplayInput(); raw != nil {
@@ -461,6 +464,10 @@ func TestVerifC20(t *testing.T) {
 		}
 		if err := jsonUnmarshal(raw, &c); err != nil {
 			t.Fatal(err)
+		}
+		if strings.HasPrefix(c.Scenario, "real-process") {
+			c20RealProcess(t, r)
+			return
 		}
 		if c.Scenario == "" {
 			c20SanitizeCheck(r, c.Script)
@@ -479,6 +486,9 @@ func TestVerifC20(t *testing.T) {
 			break
 		}
 		c20RunScenario(t, r, sc, maxPreempt, maxFault, nil)
+	}
+	if r.Shard == 0 {
+		c20RealProcess(t, r)
 	}
 
 	// Engine B part: placeholder replacement keeps length and replaces exactly the placeholders
@@ -502,6 +512,92 @@ func TestVerifC20(t *testing.T) {
 				x /= int64(len(alpha))
 			}
 			c20SanitizeCheck(r, string(buf))
+		}
+	}
+}
+
+// c20RealProcess: the one part of the integration a scripted os/exec cannot show - how the script
+// gets into a real process. A stand-in tool (a shell script that consumes its input and answers
+// with one issue) is run through the real os/exec with scripts of sizes around the capacity of a
+// pipe (64 KiB): every script is handed over completely, the call returns, the issue arrives.
+func c20RealProcess(t *testing.T, r *vReport) {
+	dir := vTempDir(t, "c20real-")
+	tool := filepath.Join(dir, "fake-shellcheck")
+	count := filepath.Join(dir, "count")
+	script := "#!/bin/sh\nwc -c >> " + count + "\necho '[{\"line\":1,\"column\":1,\"level\":\"warning\",\"code\":2086,\"message\":\"Double quote.\"}]'\nexit 1\n"
+	if err := os.WriteFile(tool, []byte(script), 0o755); err != nil {
+		t.Fatal(err)
+	}
+	overhead := -1
+	for _, size := range []int{0, 1, 4095, 4096, 65535, 65536, 65537, 131072, 1 << 20} {
+		for _, steps := range []int{1, 3} {
+			body := strings.Repeat("echo 12345\n", size/11+1)[:size]
+			var b strings.Builder
+			b.WriteString("on: push\njobs:\n  a:\n    runs-on: ubuntu-latest\n    steps:\n")
+			for k := 0; k < steps; k++ {
+				b.WriteString("      - run: |\n")
+				for _, l := range strings.Split(strings.TrimSuffix("true\n"+body, "\n"), "\n") {
+					b.WriteString("          " + l + "\n")
+				}
+			}
+			src := b.String()
+			scriptLen := len(strings.TrimSuffix("true\n"+body, "\n")) + 1 // the block scalar ends with one line break
+			os.Remove(count)
+			type result struct {
+				errs []*Error
+				err  error
+			}
+			done := make(chan result, 1)
+			go func() {
+				var out bytes.Buffer
+				l, err := NewLinter(&out, &LinterOptions{Shellcheck: tool, WorkingDir: dir})
+				if err != nil {
+					done <- result{nil, err}
+					return
+				}
+				errs, err := l.Lint("<stdin>", []byte(src), nil)
+				done <- result{errs, err}
+			}()
+			r.Evaluations++
+			r.Transitions++
+			r.Validated++
+			what := fmt.Sprintf("real-process script-bytes=%d steps=%d", size, steps)
+			replay := map[string]any{"scenario": what}
+			select {
+			case res := <-done:
+				n := 0
+				for _, e := range res.errs {
+					if e.Kind == "shellcheck" {
+						n++
+					}
+				}
+				b, _ := os.ReadFile(count)
+				got := strings.Fields(string(b))
+				switch {
+				case res.err != nil:
+					r.Violation("real-process:fatal", fmt.Sprintf("%s: %v", what, res.err), replay)
+				case n != steps:
+					r.Violation("real-process:diagnostics", fmt.Sprintf("%s: %d shellcheck diagnostics for %d steps", what, n, steps), replay)
+				case len(got) != steps:
+					r.Violation("real-process:invocations", fmt.Sprintf("%s: the tool ran %d times for %d steps", what, len(got), steps), replay)
+				default:
+					// the rule may put a fixed prologue before the script: its length is taken from
+					// the first (smallest) case and must be the same for every size
+					for _, g := range got {
+						n, _ := strconv.Atoi(g)
+						if overhead < 0 {
+							overhead = n - scriptLen
+						}
+						if w := scriptLen + overhead; n != w || overhead < 0 {
+							r.Violation("real-process:stdin-truncated", fmt.Sprintf("%s: the tool received %d bytes, the script has %d (+%d prologue)", what, n, scriptLen, overhead), replay)
+						}
+					}
+				}
+			case <-time.After(120 * time.Second):
+				r.Violation("real-process:hang", fmt.Sprintf("%s: Lint did not return within 120 s (the tool consumes its input and exits at once)", what), replay)
+				return
+			}
+			r.Class(fmt.Sprintf("real-process steps=%d", steps), true)
 		}
 	}
 }
